@@ -122,6 +122,38 @@ func ZZ_C18_Getters() {
 	zzvf.Reach("getters")
 }
 
+// Integers at the edges of the 32- and 64-bit ranges: in range = the value, outside =
+// malformed for that getter = the default.
+//vf: paths=200
+func ZZ_C18_GettersEdges() {
+	home := zzvf.FsHome()
+	defer zzvf.FsCleanup()
+	zzvf.Clock = 1000000
+	path := filepath.Join(home, "whatap.conf")
+	// integers at the edges of the 32- and 64-bit ranges
+	bigs := []string{"2147483647", "2147483648", "-2147483648", "-2147483649", "4294967297", "9223372036854775807", "9223372036854775808", "-9223372036854775808", "-9223372036854775809"}
+	big32 := []int64{2147483647, 0, -2147483648, 0, 0, 0, 0, 0, 0}
+	ok32 := []bool{true, false, true, false, false, false, false, false, false}
+	big64 := []int64{2147483647, 2147483648, -2147483648, -2147483649, 4294967297, 9223372036854775807, 0, -9223372036854775808, 0}
+	ok64 := []bool{true, true, true, true, true, true, false, true, false}
+	gi := zzvf.Choose(len(bigs))
+	zzvf.FsWrite(path, []byte("zzbig="+bigs[gi]+"\n"), zzT0)
+	c := zzConf(home, nil)
+	di, dl := zzvf.Int32(), zzvf.Int64()
+	if ok32[gi] {
+		zzvf.Assert(c.GetInt("zzbig", int(di)) == int32(big32[gi]), "getters/int-at-the-edge-of-32-bits")
+	} else {
+		zzvf.Assert(c.GetInt("zzbig", int(di)) == di, "getters/int-outside-32-bits-gives-default")
+	}
+	if ok64[gi] {
+		zzvf.Assert(c.GetLong("zzbig", dl) == big64[gi], "getters/long-at-the-edge-of-64-bits")
+	} else {
+		zzvf.Assert(c.GetLong("zzbig", dl) == dl, "getters/long-outside-64-bits-gives-default")
+	}
+	zzvf.Observe("int", int64(c.GetInt("zzbig", 7)))
+	zzvf.Reach("getters-edges")
+}
+
 func zzSameI32(a, b []int32) bool {
 	if len(a) != len(b) {
 		return false
